@@ -158,7 +158,7 @@ def h_compose(g, seq, cut, nmodes):
            [r.ind for r in pc.register] == list(range(nmodes)))
 
 
-def h_compile_untouched(g, seq, compiler, nmodes):
+def h_compile_untouched(g, seq, compiler, nmodes, optimize=False):
     """compile() for a target leaves the source program alone and compiling twice gives equal circuits"""
     import strawberryfields as sf
     from strawberryfields import ops
@@ -170,8 +170,8 @@ def h_compile_untouched(g, seq, compiler, nmodes):
             A[name](ops, lambda nm, pos=pos, **kw: g.real("c%d_%s" % (pos, nm), **kw), q)
     snap = snapshot(prog)
     try:
-        c1 = prog.compile(compiler=compiler)
-        c2 = prog.compile(compiler=compiler)
+        c1 = prog.compile(compiler=compiler, optimize=optimize)
+        c2 = prog.compile(compiler=compiler, optimize=optimize)
     except CircuitError:
         g.fact("CircuitError leaves the program alone", unchanged(prog, snap))
         return
@@ -301,6 +301,10 @@ def build(ctx):
             ctx.add("compile.%s.%s" % (comp, "|".join(s)), h_compile_untouched, {"seq": s, "compiler": comp, "nmodes": nm},
                     modules=lambda: mods() + __import__("props.c11", fromlist=["x"]).compiler_modules(), functions=fns,
                     bounds={"modes": nm, "compiler": comp}, validate_points=1)
+    for s in (["Loss0", "Loss0"], ["R0", "R0"], ["S0", "S0", "Loss0"], ["D1", "D1"], ["R.H1", "R.H1"]):
+        ctx.add("compile.gaussian.optimize.%s" % "|".join(s), h_compile_untouched,
+                {"seq": s, "compiler": "gaussian", "nmodes": nm, "optimize": True}, modules=mods, functions=fns + ["optimize_circuit", "Gate.merge", "Channel.merge"],
+                bounds={"modes": nm, "compiler": "gaussian", "optimize": True}, validate_points=1)
     for gate in ("Rgate", "Sgate", "Dgate", "BSgate", "Kgate"):
         for dagger in (False, True):
             for exc in ("NotImplementedError", "NotApplicableError", "ValueError"):
